@@ -4,4 +4,4 @@ Extraction Language OCaml.
 Extraction "c15_model.ml"
   prelude_byte_of_N prelude_N_of_byte prelude_Z_of_N prelude_Z_opp prelude_nat_of_N prelude_N_of_nat
   push tokenize parse_output parse_input parse_sub generate_named
-  tname_str field_str all_tnames all_fields flags class_of row_type int_bytes is_script_hash frame unframe tx_view.
+  tname_str field_str all_tnames all_fields flags class_of row_type int_bytes is_script_hash frame unframe tx_view internal_at.
